@@ -484,4 +484,15 @@ def applyCtxOp (heap : List Ctx) : CtxOp → List Ctx
 
 def runCtxOps (heap : List Ctx) (ops : List CtxOp) : List Ctx := ops.foldl applyCtxOp heap
 
+/-! ## property accessors -/
+
+/-- `Property.Key()` -/
+def Property.getKey (p : Property) : Bytes := p.key
+/-- `Property.Value()`: `(p.value, p.hasValue)` -/
+def Property.getValue (p : Property) : Bytes × Bool := (p.value, p.hasValue)
+/-- `Member.Key()`, `Member.Value()`, `Member.Properties()` (a copy) -/
+def Member.getKey (m : Member) : Bytes := m.key
+def Member.getValue (m : Member) : Bytes := m.value
+def Member.getProperties (m : Member) : List Property := m.props
+
 end Otel.C11
